@@ -91,6 +91,27 @@ pub fn leaf_cert(key: &SigningKey, root_key: &SigningKey, issuer: &str, subject:
     finish(b, root_key)
 }
 
+/// A leaf that NAMES `named_root` (issuer name, authority key identifier) but is signed by its own key.
+pub fn forged_leaf(key: &SigningKey, named_root: &SigningKey, issuer: &str, subject: &str, eku: &str, serial: u64) -> Certificate {
+    let spki = SubjectPublicKeyInfoOwned::from_key(*key.verifying_key()).unwrap();
+    let mut b = CertificateBuilder::new(
+        Profile::Manual { issuer: Some(issuer.parse().unwrap()) },
+        serial.into(),
+        Validity::from_now(Duration::from_secs(86400)).unwrap(),
+        subject.parse().unwrap(),
+        spki,
+        key,
+    )
+    .unwrap();
+    b.add_extension(&SubjectKeyIdentifier(ski_of(key))).unwrap();
+    b.add_extension(&AuthorityKeyIdentifier { key_identifier: Some(ski_of(named_root)), ..Default::default() }).unwrap();
+    b.add_extension(&KeyUsage(KeyUsages::DigitalSignature.into())).unwrap();
+    b.add_extension(&ian()).unwrap();
+    b.add_extension(&crl_dp()).unwrap();
+    b.add_extension(&ExtendedKeyUsage(vec![ObjectIdentifier::new_unwrap(eku)])).unwrap();
+    finish(b, key)
+}
+
 pub struct Pki {
     pub iaca_key: SigningKey,
     pub iaca: Certificate,
